@@ -183,3 +183,74 @@ pub fn boundary_elements<B: Fld>() -> Vec<B> {
     }
     out
 }
+
+// EXTENSION ELEMENTS
+// ================================================================================================
+use winter_math::{
+    fields::{CubeExtension, QuadExtension},
+    ExtensionOf,
+};
+
+/// uniform access to the coefficients of quadratic / cubic extension elements
+pub trait ExtEl<B: Fld, const N: usize>:
+    FieldElement<BaseField = B, PositiveInteger = <B as FieldElement>::PositiveInteger> + ExtensionOf<B> + From<B>
+{
+    fn from_coeffs(c: [B; N]) -> Self;
+    fn coeffs(&self) -> [B; N];
+    fn ref_ext() -> crate::refmath::Ext<N>;
+    fn supported() -> bool;
+}
+
+impl<B: Fld> ExtEl<B, 2> for QuadExtension<B> {
+    fn from_coeffs(c: [B; 2]) -> Self {
+        QuadExtension::new(c[0], c[1])
+    }
+    fn coeffs(&self) -> [B; 2] {
+        self.to_base_elements()
+    }
+    fn ref_ext() -> crate::refmath::Ext<2> {
+        match B::NAME {
+            "f62" => crate::refmath::quad62(),
+            "f64" => crate::refmath::quad64(),
+            _ => crate::refmath::quad128(),
+        }
+    }
+    fn supported() -> bool {
+        QuadExtension::<B>::is_supported()
+    }
+}
+
+impl<B: Fld> ExtEl<B, 3> for CubeExtension<B> {
+    fn from_coeffs(c: [B; 3]) -> Self {
+        CubeExtension::new(c[0], c[1], c[2])
+    }
+    fn coeffs(&self) -> [B; 3] {
+        self.to_base_elements()
+    }
+    fn ref_ext() -> crate::refmath::Ext<3> {
+        match B::NAME {
+            "f62" => crate::refmath::cube62(),
+            "f64" => crate::refmath::cube64(),
+            _ => panic!("no cubic extension of f128"),
+        }
+    }
+    fn supported() -> bool {
+        CubeExtension::<B>::is_supported()
+    }
+}
+
+pub fn ext_res<B: Fld, E: ExtEl<B, N>, const N: usize>(e: &E) -> [u128; N] {
+    let c = e.coeffs();
+    let mut r = [0u128; N];
+    for i in 0..N {
+        r[i] = c[i].res();
+    }
+    r
+}
+pub fn ext_from_res<B: Fld, E: ExtEl<B, N>, const N: usize>(r: [u128; N]) -> E {
+    let mut c = [B::ZERO; N];
+    for i in 0..N {
+        c[i] = B::from_res(r[i]);
+    }
+    E::from_coeffs(c)
+}
